@@ -5,7 +5,7 @@ cd "$(dirname "$0")"
 export GOFLAGS=-mod=mod GOPROXY=off GOSUMDB=off GOTOOLCHAIN=local
 mkdir -p work replays evidence harness/bin tools/extract/bin
 (cd tools/extract && go build -o bin/extract . && ./bin/extract /repo ../../lean/KavaVerif/Generated >/dev/null || true)
-(cd lean && lake build)
+(cd lean && lake build && for i in 01 02 03 04 05 06 07 08 09 10 11 12 13 14 15 16 17 18 19 20; do lake build kv_c$i; done)
 cp /repo/go.sum harness/go.sum
 (cd harness && for d in cmd/*/; do n=$(basename "$d"); go build -tags verif -o "bin/$n" "./cmd/$n" || exit 1; done)
 echo "setup ok"
